@@ -11,6 +11,22 @@ open S3V S3V.Xml
 
 theorem utf8Valid_nil : utf8Valid [] = true := by decide
 
+/-! ### `read_event` inside an element (depth ≥ 1): character data passes, comments and PIs are skipped -/
+
+theorem deEventsAt_text_succ (d : Nat) (raw : Bytes) (t : List QEv) :
+    deEventsAt (d + 1) (.text raw :: t) = .text raw :: deEventsAt (d + 1) t := by simp [deEventsAt]
+
+theorem deEventsAt_cdata_succ (d : Nat) (c : Bytes) (t : List QEv) :
+    deEventsAt (d + 1) (.cdata c :: t) = .cdata c :: deEventsAt (d + 1) t := by simp [deEventsAt]
+
+theorem deEventsAt_stop_succ (d : Nat) (n : Bytes) (t : List QEv) :
+    deEventsAt (d + 1) (.stop n :: t) = .stop n :: deEventsAt d t := by simp [deEventsAt]
+
+theorem deEventsAt_comment (d : Nat) (t : List QEv) : deEventsAt d (.comment :: t) = deEventsAt d t := by
+  simp [deEventsAt]
+
+theorem deEventsAt_pi (d : Nat) (t : List QEv) : deEventsAt d (.pi :: t) = deEventsAt d t := by simp [deEventsAt]
+
 /-- the meaning of a run is valid UTF-8 -/
 theorem charsMeaning_valid : ∀ (run : List QEv) (m : Bytes), charsMeaning run = some m → utf8Valid m = true
   | [], m, h => by simp [charsMeaning] at h; subst h; exact utf8Valid_nil
@@ -49,14 +65,14 @@ theorem decodeStr_escape_valid {s : Bytes} (hs : utf8Valid s = true) : decodeStr
   decodeStr_escape (utf8Valid_escape hs)
 
 /-- the loop of `Deserializer::text` once it is in the joined state -/
-theorem textLoop_joined (name : Bytes) (rest : List QEv) : ∀ (run : List QEv) (s m : Bytes),
+theorem textLoop_joined (name : Bytes) (rest : List QEv) (d : Nat) : ∀ (run : List QEv) (s m : Bytes),
     utf8Valid s = true → charsMeaning run = some m →
-    textLoop none (some s) (deEvents (run ++ .stop name :: rest))
-      = .ok (escape (s ++ m), .stop name :: deEvents rest)
+    textLoop none (some s) (deEventsAt (d + 1) (run ++ .stop name :: rest))
+      = .ok (escape (s ++ m), .stop name :: deEventsAt d rest)
   | [], s, m, _, hm => by
     simp only [charsMeaning, Option.some.injEq] at hm
     subst hm
-    simp [deEvents, textLoop]
+    simp [deEventsAt_stop_succ, textLoop]
   | .text raw :: r, s, m, hs, hm => by
     simp only [charsMeaning] at hm
     split at hm
@@ -69,9 +85,9 @@ theorem textLoop_joined (name : Bytes) (rest : List QEv) : ∀ (run : List QEv) 
         | some b =>
           simp only [hu, hr, Option.some.injEq] at hm
           subst hm
-          have ih := textLoop_joined name rest r (s ++ a) b
+          have ih := textLoop_joined name rest d r (s ++ a) b
             (utf8Valid_append hs (utf8Valid_unescape hv hu)) hr
-          simp only [List.cons_append, deEvents, textLoop, Option.isNone_none, Option.isNone_some, Bool.and_false,
+          simp only [List.cons_append, deEventsAt_text_succ, textLoop, Option.isNone_none, Option.isNone_some, Bool.and_false,
             Bool.false_eq_true, if_false, joinedText, Option.getD_some, decodeStr_ok hv hu, ih, List.append_assoc]
     · cases hm
   | .cdata c :: r, s, m, hs, hm => by
@@ -81,28 +97,29 @@ theorem textLoop_joined (name : Bytes) (rest : List QEv) : ∀ (run : List QEv) 
       simp only [Option.map_eq_some_iff] at hm
       obtain ⟨b, hb, he⟩ := hm
       subst he
-      have ih := textLoop_joined name rest r (s ++ c) b (utf8Valid_append hs hv) hb
-      simp only [List.cons_append, deEvents, textLoop, joinedText, Option.getD_some, hv, if_true, ih,
+      have ih := textLoop_joined name rest d r (s ++ c) b (utf8Valid_append hs hv) hb
+      simp only [List.cons_append, deEventsAt_cdata_succ, textLoop, joinedText, Option.getD_some, hv, if_true, ih,
         List.append_assoc]
     · cases hm
   | .comment :: r, s, m, hs, hm => by
-    have := textLoop_joined name rest r s m hs (by simpa [charsMeaning] using hm)
-    simpa [deEvents] using this
+    have := textLoop_joined name rest d r s m hs (by simpa [charsMeaning] using hm)
+    simpa [deEventsAt_comment] using this
   | .pi :: r, s, m, hs, hm => by
-    have := textLoop_joined name rest r s m hs (by simpa [charsMeaning] using hm)
-    simpa [deEvents] using this
+    have := textLoop_joined name rest d r s m hs (by simpa [charsMeaning] using hm)
+    simpa [deEventsAt_pi] using this
   | .start _ _ :: _, _, _, _, hm | .stop _ :: _, _, _, _, hm | .empty _ _ :: _, _, _, _, hm
   | .decl :: _, _, _, _, hm | .doctype :: _, _, _, _, hm | .err :: _, _, _, _, hm => by simp [charsMeaning] at hm
 
 /-- … while it still holds one text piece `x` untouched -/
-theorem textLoop_single (name : Bytes) (rest : List QEv) (x ax : Bytes) (hx : utf8Valid x = true)
+theorem textLoop_single (name : Bytes) (rest : List QEv) (d : Nat) (x ax : Bytes) (hx : utf8Valid x = true)
     (hux : unescape x = some ax) : ∀ (run : List QEv) (m : Bytes), charsMeaning run = some m →
-    ∃ raw, textLoop (some x) none (deEvents (run ++ .stop name :: rest)) = .ok (raw, .stop name :: deEvents rest) ∧
+    ∃ raw, textLoop (some x) none (deEventsAt (d + 1) (run ++ .stop name :: rest))
+        = .ok (raw, .stop name :: deEventsAt d rest) ∧
       decodeStr raw = .ok (ax ++ m)
   | [], m, hm => by
     simp only [charsMeaning, Option.some.injEq] at hm
     subst hm
-    exact ⟨x, by simp [deEvents, textLoop], by simpa using decodeStr_ok hx hux⟩
+    exact ⟨x, by simp [deEventsAt_stop_succ, textLoop], by simpa using decodeStr_ok hx hux⟩
   | .text raw :: r, m, hm => by
     simp only [charsMeaning] at hm
     split at hm
@@ -117,9 +134,9 @@ theorem textLoop_single (name : Bytes) (rest : List QEv) (x ax : Bytes) (hx : ut
           subst hm
           have hax := utf8Valid_unescape hx hux
           have ha := utf8Valid_unescape hv hu
-          have hj := textLoop_joined name rest r (ax ++ a) b (utf8Valid_append hax ha) hr
+          have hj := textLoop_joined name rest d r (ax ++ a) b (utf8Valid_append hax ha) hr
           refine ⟨escape ((ax ++ a) ++ b), ?_, ?_⟩
-          · simp only [List.cons_append, deEvents, textLoop, Option.isNone_none, Option.isNone_some, Bool.false_and,
+          · simp only [List.cons_append, deEventsAt_text_succ, textLoop, Option.isNone_none, Option.isNone_some, Bool.false_and,
               Bool.false_eq_true, if_false, joinedText, Option.getD_none, List.nil_append, decodeStr_ok hx hux,
               decodeStr_ok hv hu, hj]
           · rw [List.append_assoc]
@@ -133,31 +150,32 @@ theorem textLoop_single (name : Bytes) (rest : List QEv) (x ax : Bytes) (hx : ut
       obtain ⟨b, hb, he⟩ := hm
       subst he
       have hax := utf8Valid_unescape hx hux
-      have hj := textLoop_joined name rest r (ax ++ c) b (utf8Valid_append hax hv) hb
+      have hj := textLoop_joined name rest d r (ax ++ c) b (utf8Valid_append hax hv) hb
       refine ⟨escape ((ax ++ c) ++ b), ?_, ?_⟩
-      · simp only [List.cons_append, deEvents, textLoop, joinedText, Option.getD_none, List.nil_append,
+      · simp only [List.cons_append, deEventsAt_cdata_succ, textLoop, joinedText, Option.getD_none, List.nil_append,
           decodeStr_ok hx hux, hv, if_true, hj]
       · rw [List.append_assoc]
         exact decodeStr_escape_valid (utf8Valid_append hax (utf8Valid_append hv (charsMeaning_valid r b hb)))
     · cases hm
   | .comment :: r, m, hm => by
-    have := textLoop_single name rest x ax hx hux r m (by simpa [charsMeaning] using hm)
-    simpa [deEvents] using this
+    have := textLoop_single name rest d x ax hx hux r m (by simpa [charsMeaning] using hm)
+    simpa [deEventsAt_comment] using this
   | .pi :: r, m, hm => by
-    have := textLoop_single name rest x ax hx hux r m (by simpa [charsMeaning] using hm)
-    simpa [deEvents] using this
+    have := textLoop_single name rest d x ax hx hux r m (by simpa [charsMeaning] using hm)
+    simpa [deEventsAt_pi] using this
   | .start _ _ :: _, _, hm | .stop _ :: _, _, hm | .empty _ _ :: _, _, hm
   | .decl :: _, _, hm | .doctype :: _, _, hm | .err :: _, _, hm => by simp [charsMeaning] at hm
 
 /-- **`Deserializer::text` hands the scalar parser a text that unescapes to the meaning of the element's character
 data** — for every run of text pieces, CDATA sections, comments and PIs -/
-theorem textOf_meaning (name : Bytes) (rest : List QEv) : ∀ (run : List QEv) (m : Bytes), charsMeaning run = some m →
-    ∃ raw, textOf (deEvents (run ++ .stop name :: rest)) = .ok (raw, .stop name :: deEvents rest) ∧
+theorem textOf_meaning (name : Bytes) (rest : List QEv) (d : Nat) : ∀ (run : List QEv) (m : Bytes),
+    charsMeaning run = some m →
+    ∃ raw, textOf (deEventsAt (d + 1) (run ++ .stop name :: rest)) = .ok (raw, .stop name :: deEventsAt d rest) ∧
       decodeStr raw = .ok m
   | [], m, hm => by
     simp only [charsMeaning, Option.some.injEq] at hm
     subst hm
-    exact ⟨[], by simp [textOf, deEvents, textLoop], by simp [decodeStr, utf8Valid_nil, unescape]⟩
+    exact ⟨[], by simp [textOf, deEventsAt_stop_succ, textLoop], by simp [decodeStr, utf8Valid_nil, unescape]⟩
   | .text raw :: r, m, hm => by
     simp only [charsMeaning] at hm
     split at hm
@@ -170,9 +188,9 @@ theorem textOf_meaning (name : Bytes) (rest : List QEv) : ∀ (run : List QEv) (
         | some b =>
           simp only [hu, hr, Option.some.injEq] at hm
           subst hm
-          obtain ⟨raw', h1, h2⟩ := textLoop_single name rest raw a hv hu r b hr
+          obtain ⟨raw', h1, h2⟩ := textLoop_single name rest d raw a hv hu r b hr
           refine ⟨raw', ?_, h2⟩
-          simp only [textOf, List.cons_append, deEvents, textLoop, Option.isNone_none, Bool.and_self, if_true]
+          simp only [textOf, List.cons_append, deEventsAt_text_succ, textLoop, Option.isNone_none, Bool.and_self, if_true]
           exact h1
     · cases hm
   | .cdata c :: r, m, hm => by
@@ -182,26 +200,27 @@ theorem textOf_meaning (name : Bytes) (rest : List QEv) : ∀ (run : List QEv) (
       simp only [Option.map_eq_some_iff] at hm
       obtain ⟨b, hb, he⟩ := hm
       subst he
-      have hj := textLoop_joined name rest r c b hv hb
+      have hj := textLoop_joined name rest d r c b hv hb
       refine ⟨escape (c ++ b), ?_, decodeStr_escape_valid (utf8Valid_append hv (charsMeaning_valid r b hb))⟩
-      simp only [textOf, List.cons_append, deEvents, textLoop, joinedText, Option.getD_none, List.nil_append, hv,
+      simp only [textOf, List.cons_append, deEventsAt_cdata_succ, textLoop, joinedText, Option.getD_none, List.nil_append, hv,
         if_true, hj]
     · cases hm
   | .comment :: r, m, hm => by
-    have := textOf_meaning name rest r m (by simpa [charsMeaning] using hm)
-    simpa [deEvents] using this
+    have := textOf_meaning name rest d r m (by simpa [charsMeaning] using hm)
+    simpa [deEventsAt_comment] using this
   | .pi :: r, m, hm => by
-    have := textOf_meaning name rest r m (by simpa [charsMeaning] using hm)
-    simpa [deEvents] using this
+    have := textOf_meaning name rest d r m (by simpa [charsMeaning] using hm)
+    simpa [deEventsAt_pi] using this
   | .start _ _ :: _, _, hm | .stop _ :: _, _, hm | .empty _ _ :: _, _, hm
   | .decl :: _, _, hm | .doctype :: _, _, hm | .err :: _, _, hm => by simp [charsMeaning] at hm
 
 /-- a string element is read as the string its character data denotes -/
-theorem readString_meaning (X : Ext) (name : Bytes) (rest : List QEv) (run : List QEv) (m : Bytes)
+theorem readString_meaning (X : Ext) (name : Bytes) (rest : List QEv) (d : Nat) (run : List QEv) (m : Bytes)
     (hm : charsMeaning run = some m) :
-    readStringElement X name (deEvents (run ++ .stop name :: rest)) = .ok (.str m, deEvents rest) := by
-  obtain ⟨raw, h1, h2⟩ := textOf_meaning name rest run m hm
-  have hd : decode X .str (deEvents (run ++ .stop name :: rest)) = .ok (.str m, .stop name :: deEvents rest) :=
+    readStringElement X name (deEventsAt (d + 1) (run ++ .stop name :: rest)) = .ok (.str m, deEventsAt d rest) := by
+  obtain ⟨raw, h1, h2⟩ := textOf_meaning name rest d run m hm
+  have hd : decode X .str (deEventsAt (d + 1) (run ++ .stop name :: rest))
+      = .ok (.str m, .stop name :: deEventsAt d rest) :=
     decode_scalar_ok X .str rfl h1 (by simp [decodeScalarText, h2, Except.map])
   simp [readStringElement, hd, expectEnd_stop]
 
